@@ -1815,8 +1815,11 @@ class Interp:
                             pass
                     if meth in ("startswith", "endswith") and len(args) == 1 and isinstance(args[0], Const):
                         return [(Const(getattr(recv.v, meth)(args[0].v)), s)]
-                    if meth == "split" and len(args) <= 1 and all(isinstance(a, Const) for a in args):
-                        return [(ListV(tuple(Const(x) for x in recv.v.split(*[a.v for a in args]))), s)]
+                    if meth in ("split", "rsplit", "partition", "rpartition") and len(args) <= 2 and all(isinstance(a, Const) for a in args) and isinstance(recv.v, str):
+                        try:
+                            return [(ListV(tuple(Const(x) for x in getattr(recv.v, meth)(*[a.v for a in args]))), s)]
+                        except Exception:  # noqa: BLE001
+                            pass
                     if meth == "replace" and len(args) == 2 and all(isinstance(a, Const) for a in args):
                         return [(Const(recv.v.replace(args[0].v, args[1].v)), s)]
             if isinstance(recv, DictV) and meth == "get" and args and isinstance(args[0], (Const, EnumM)):
